@@ -226,6 +226,29 @@ def run_batch(case, R):
                         R.count("monotone_pairs_premise_not_met")
                 else:
                     R.ok("monotone-in-coverage")
+        # the outcome is a function of the object's visible data: after the baseline (or a program outcome) has been changed and
+        # update_outcomes() called - the documented protocol, used by reconciliation - it answers like a freshly built object
+        if rng.random() < 0.35:
+            base2 = float(base) + float(rng.choice([-0.3, 0.2, 0.45]))
+            progs2 = dict(progs)
+            if rng.random() < 0.5:
+                k_ = names[int(rng.integers(0, n))]
+                progs2[k_] = float(progs2[k_]) + 0.15
+            co.baseline = base2
+            for k_, v_ in progs2.items():
+                co.progs[k_] = v_
+            co.update_outcomes()
+            fresh = at.programs.Covout(par="par", pop="pop", progs=progs2, cov_interaction=inter, imp_interaction=imp, baseline=base2)
+            R.count("covouts_edited_after_construction")
+            for j in range(4):
+                c = cov_vector(rng, n)
+                cov = {k: np.array([v]) for k, v in zip(names, c)}
+                y1, y2 = float(co.get_outcome(cov)), float(fresh.get_outcome(cov))
+                if not (abs(y1 - y2) <= 1e-12 * max(1.0, abs(y2))):
+                    R.bad("edited=freshly-built", "C12:edited-covout-differs-from-freshly-built[%s,%s]" % (inter, "explicit" if imp else "best"), {"coverage": c.tolist(), "edited": y1, "fresh": y2, "progs": progs2, "baseline": base2, "imp": imp, "baseline_at_construction": base})
+                    break
+            else:
+                R.ok("edited=freshly-built")
         if len(samples) < 2:
             samples.append({"progs": progs, "baseline": base, "interaction": inter, "imp_interaction": imp})
     return {"records": R.records(), "stats": R.stats, "nontrivial": bool(multi and above), "sample": {"kind": "batch", "covouts": samples}}
